@@ -66,7 +66,15 @@ type Archive struct {
 	CDOrder     int      `json:"cd_order"`      // 0 body order, 1 reversed, 2 rotated by one
 	GapBetween  bool     `json:"gap_between"`   // 7 unrelated bytes between consecutive members
 	GapBeforeCD bool     `json:"gap_before_cd"` // 7 unrelated bytes between the last member and the central directory
+	// Prefix: leading data that belongs to no member (a self-extractor stub, a script header).
+	// 0 none; 1 the recorded offsets are file offsets (what `zip -A` leaves); 2 the recorded offsets
+	// are relative to the first member (what `cat stub a.zip` leaves; both reference readers accept it
+	// by taking the position of the directory from the end record and its size).
+	Prefix int `json:"prefix,omitempty"`
 }
+
+// Stub is the leading data of a prefixed archive: 61 bytes, no record signature in it.
+var Stub = []byte("#!/bin/sh\n# self-extracting archive stub; data follows below\n\n")
 
 func (a Archive) String() string {
 	var parts []string
@@ -126,6 +134,9 @@ func (a Archive) ArchFeatures() string {
 	}
 	if a.GapBeforeCD {
 		f = append(f, "gap=beforecd")
+	}
+	if a.Prefix != 0 {
+		f = append(f, []string{"", "prefix=adjusted", "prefix=unadjusted"}[a.Prefix])
 	}
 	return strings.Join(f, ",")
 }
@@ -222,7 +233,24 @@ func otherExtra(kind int, local bool) []byte {
 
 // Build serialises the archive.
 func Build(a Archive) ([]byte, Layout) {
+	if a.Prefix == 2 {
+		b := a
+		b.Prefix = 0
+		blob, lay := Build(b)
+		d := int64(len(Stub))
+		for i := range lay.Members {
+			lay.Members[i].HeaderOffset += d
+			lay.Members[i].DataOffset += d
+		}
+		lay.CDOffset += d
+		lay.EndOffset += d
+		lay.Size += d
+		return append(append([]byte{}, Stub...), blob...), lay
+	}
 	var out bytes.Buffer
+	if a.Prefix == 1 {
+		out.Write(Stub)
+	}
 	n := len(a.Members)
 	body := make([]MemberLayout, n)
 	type cinfo struct {
